@@ -316,6 +316,24 @@ func genC10(seed int64, tier string) []caseOut {
 			emit(fmt.Sprintf("systematic,restate-service-%d", j), mkDoc(), A{M{"action": "add-services", "services": A{validService(fr, "s"+ids[j]), validService(fr, "snew")}}})
 			emit(fmt.Sprintf("systematic,restate-aka-%d", j), mkDoc(), A{M{"action": "add-also-known-as", "uris": A{fmt.Sprintf("https://aka.example/%d", j), "https://aka.example/new"}}})
 		}
+		// an add that names a new id first and an existing id afterwards, on lists of every length 1..9
+		// (new entries appended, the existing one replaced in place whatever was appended before it)
+		for n := 1; n <= 9; n++ {
+			mkN := func() M {
+				ks, ss := A{}, A{}
+				for j := 0; j < n; j++ {
+					ks = append(ks, validKey(fr, fmt.Sprintf("k%d", j)))
+					ss = append(ss, validService(fr, fmt.Sprintf("sk%d", j)))
+				}
+				return M{"publicKey": ks, "service": ss}
+			}
+			for _, j := range []int{0, n - 1} {
+				emit(fmt.Sprintf("systematic,new-then-existing-key-%d-of-%d", j, n), mkN(),
+					A{M{"action": "add-public-keys", "publicKeys": A{validKey(fr, "newA"), validKey(fr, fmt.Sprintf("k%d", j)), validKey(fr, "newB")}}})
+				emit(fmt.Sprintf("systematic,new-then-existing-service-%d-of-%d", j, n), mkN(),
+					A{M{"action": "add-services", "services": A{validService(fr, "snewA"), validService(fr, fmt.Sprintf("sk%d", j)), validService(fr, "snewB")}}})
+			}
+		}
 	}
 	for i := 0; i < n; i++ {
 		doc, g := randDoc(r, false)
